@@ -4,7 +4,7 @@ From Coq Require Import Reals ZArith List Bool Lia Lra.
 From Coquelicot Require Import Coquelicot.
 From Sky Require Import Result PyList Num NumR G_llh G_layout M_Llh S_Llh M_Layout S_Layout
   M_LlhPipe M_LlhGrad M_LlhE2E S_LlhPipe S_LlhGrad
-  P_Llh P_LlhValue P_LlhDeriv P_WeightsDeriv P_Layout P_LayoutDeriv P_LlhGrad P_LlhStack P_LlhPipeGrad P_LlhE2E.
+  P_Llh P_LlhValue P_LlhDeriv P_WeightsDeriv P_Layout P_LayoutDeriv P_LlhGrad P_LlhStack P_LlhPipeGrad P_LlhE2E M_LayoutExt P_LayoutExt.
 Import ListNotations.
 
 (* ---------------------------------------------------------------- layout clause *)
@@ -357,3 +357,39 @@ Proof. cbv zeta. eexists. eexists. eexists. repeat split; vm_compute; reflexivit
 Example C02_layout_dup_rejected :
   build 1 [mkG 0 false 0 [Some 1]; mkG 6 false 0 [Some 10]; mkG 7 true (5:Z) [Some 10]] = Err KeyError.
 Proof. vm_compute. reflexivity. Qed.
+
+(* ---------------------------------------------------------------- extension:
+   TrialDataManager.get_values_mask_for_source_mask (the list plumbing behind a partial match) *)
+Close Scope R_scope.
+Open Scope Z_scope.
+Theorem C02_values_mask_length : forall src_mask val_src,
+  length (values_mask src_mask val_src) = length val_src.
+Proof. exact values_mask_length. Qed.
+Print Assumptions C02_values_mask_length.
+
+(* a value entry is selected exactly when its source index is a valid source and that source is
+   selected by the source mask: the OR-loop over np.arange(n_sources)[src_mask] is the pointwise test *)
+Theorem C02_values_mask_pointwise : forall src_mask val_src v,
+  (v < length val_src)%nat ->
+  nth v (values_mask src_mask val_src) false
+  = (0 <=? nth v val_src 0) && (nth v val_src 0 <? Z.of_nat (length src_mask))
+    && nth (Z.to_nat (nth v val_src 0)) src_mask false.
+Proof. exact values_mask_pointwise. Qed.
+Print Assumptions C02_values_mask_pointwise.
+
+(* with the error path: a boolean mask that does not have n_sources entries raises IndexError,
+   otherwise the result has one entry per value and is the source mask read through src_evt_idxs[0] *)
+Theorem C02_values_mask_res : forall n src_mask val_src,
+  (length src_mask <> n -> values_mask_res n src_mask val_src = Err IndexError)
+  /\ (length src_mask = n ->
+      exists vm, values_mask_res n src_mask val_src = Ok vm /\ length vm = length val_src
+        /\ forall v, (v < length val_src)%nat -> (0 <= nth v val_src 0 < Z.of_nat n) ->
+             nth v vm false = nth (Z.to_nat (nth v val_src 0)) src_mask false).
+Proof. exact values_mask_res_spec. Qed.
+Print Assumptions C02_values_mask_res.
+
+Example C02_values_mask_nonvacuous :
+  values_mask_res 3 [true; false; true] [0; 0; 1; 2; 2] = Ok [true; true; false; true; true]
+  /\ values_mask_res 3 [true; false] [0; 1] = Err IndexError
+  /\ values_mask_res 2 [false; true] [] = Ok [].
+Proof. repeat split; vm_compute; reflexivity. Qed.
